@@ -13,7 +13,8 @@ from .regs import uc_list, uc_dict, pint_uc
 class Check(Property):
     ID = "C02"
     PROPS_FILE = "PintModel/Props/C02.lean"
-    MODULE = "PintModel.Props.C02"
+    MODULE = "PintModel.Props.C02All"
+    EXTRA_PROPS_FILES = ["PintModel/Props/C02All.lean"] + [f"PintModel/Props/C02W{i}.lean" for i in range(6)]
     EXTRA_LEAN_FILES = ["PintModel/Proofs/RootLemmas.lean", "PintModel/Proofs/SumLemmas.lean",
                         "PintModel/Proofs/DimLemmas.lean", "PintModel/Proofs/UCLemmas.lean"]
     RULE = ("same-dimension triples (a,b,c) of multiplicative units in random accepted spellings (names, aliases, "
